@@ -1553,6 +1553,10 @@ class EdgeAssemblyChanger(GeometryChanger):
         armi.reactor.converters.geometryConverter.EdgeAssemblyChanger.removeEdgeAssemblies
         armi.reactor.blocks.HexBlock.getSymmetryFactor
         """
+        if core.isFullCore:
+            # no assembly is cut by a symmetry line in a full core
+            return
+
         runLog.extra(
             "Scaling edge-assembly parameters to account for full hexes instead of two halves"
         )
